@@ -271,3 +271,49 @@ pub fn front(toks: Vec<Tok>) -> Vec<Tok> {
         out
     })
 }
+
+/// The demultiplexer behind the real QUIC listener: one QUIC + HTTP/3 handshake per query (the client offers `h3` only), then a
+/// health-check request to see which channel answers.
+/// in : as c05_select (the ALPN token of a query is ignored)
+/// out: [996] | [2] | per query [9] unusable SNI | [0] no connection | [1, status of `CONNECT _check`]
+pub fn front_quic(toks: Vec<Tok>) -> Vec<Tok> {
+    use std::time::Duration;
+    let f = toks[0].clone();
+    if hosts(&toks[1..6], f[3] == 1).is_err() {
+        return vec![vec![2]];
+    }
+    let rt = tokio::runtime::Builder::new_multi_thread().worker_threads(2).enable_all().build().unwrap();
+    rt.block_on(async move {
+        let f2 = f.clone();
+        let make = move |addr: std::net::SocketAddr| settings_at(addr, f2[0] == 1, f2[1] == 1, true, f2[3] == 1);
+        let host_toks: Vec<Tok> = toks[1..6].to_vec();
+        let rp_on = f[3] == 1;
+        let Some(ep) = crate::front::start(make, move || hosts(&host_toks, rp_on).unwrap(), None).await else {
+            return vec![vec![996]];
+        };
+        let mut out = vec![];
+        let mut i = 6;
+        while i + 1 < toks.len() {
+            let sni = String::from_utf8_lossy(&bytes(&toks[i + 1])).to_string();
+            i += 2;
+            if rustls::ServerName::try_from(sni.as_str()).is_err() || sni.parse::<std::net::IpAddr>().is_ok() {
+                out.push(vec![9]);
+                continue;
+            }
+            match crate::front::H3Client::connect(ep.addr, &sni).await {
+                None => out.push(vec![0]),
+                Some(mut c) => {
+                    let hs = vec![(b":method".to_vec(), b"CONNECT".to_vec()), (b":authority".to_vec(), b"_check".to_vec()), (b"user-agent".to_vec(), b"verif".to_vec())];
+                    let mut st = 0u128;
+                    if let Some(id) = c.request(&hs, false) {
+                        c.drive(Duration::from_secs(2), |x| x.streams[&id].headers.is_some() || x.streams[&id].finished || x.is_shut()).await;
+                        st = c.streams[&id].status() as u128;
+                    }
+                    c.close();
+                    out.push(vec![1, st]);
+                }
+            }
+        }
+        out
+    })
+}
